@@ -129,25 +129,45 @@ class Judge:
         by_i = {}
         for o in obs:
             by_i[o['i']] = o
-        for pi, proc in enumerate(self.scn['procs']):
+        procs = self.scn['procs']
+        # operations in the order they were executed: a process parked at a `wait` operation stays alive while the nested process runs
+        order = []
+
+        def emit(pi):
+            for op in procs[pi]['ops']:
+                order.append((pi, op))
+                if op['op'] == 'wait' and by_i.get(op['i']) is not None:
+                    for qi, q in enumerate(procs):
+                        if q.get('nested') and q.get('id') == op.get('run'):
+                            emit(qi)
+        for pi, proc in enumerate(procs):
+            if not proc.get('nested'):
+                emit(pi)
+        states = {}
+        for pi, op in order:
+            proc = procs[pi]
             self.muted = bool(proc.get('tree'))
-            self.proc = {'chains': {}, 'objs': {}, 'faults': {}, 'multis': {}, 'dead': False, 'tree': proc.get('tree'),
-                         'index': pi, 'logger_dirty': set()}
-            for op in proc['ops']:
-                o = by_i.get(op['i'])
-                if o is None:
-                    # process died earlier (crash): remaining ops of this process were never executed
-                    continue
-                if 'skip' in (o.get('res') or {}):
-                    continue
-                ch = self.proc['chains'].get(op.get('cid'))
-                self.cur_multi = op['op'] in ('mbuild', 'mforce') or bool(ch and ch['registry'][0] == 'multi')
-                self.cur_migrated = bool(ch and ch['store'] in self.migration_targets)
-                getattr(self, 'j_' + op['op'])(op, o)
-                if o.get('crash'):
-                    self.proc['dead'] = True
-                self.abstract_states.append(self.state_digest())
+            if pi not in states:
+                states[pi] = {'chains': {}, 'objs': {}, 'faults': {}, 'multis': {}, 'dead': False, 'tree': proc.get('tree'),
+                              'index': pi, 'logger_dirty': set()}
+            self.proc = states[pi]
+            o = by_i.get(op['i'])
+            if o is None:
+                # process died earlier (crash): remaining ops of this process were never executed
+                continue
+            if 'skip' in (o.get('res') or {}):
+                continue
+            ch = self.proc['chains'].get(op.get('cid'))
+            self.cur_multi = op['op'] in ('mbuild', 'mforce') or bool(ch and ch['registry'][0] == 'multi')
+            self.cur_migrated = bool(ch and ch['store'] in self.migration_targets)
+            getattr(self, 'j_' + op['op'])(op, o)
+            if o.get('crash'):
+                self.proc['dead'] = True
+            self.abstract_states.append(self.state_digest())
         return self.discs
+
+    def j_wait(self, op, o):
+        self.stats['overlapping_processes'] = self.stats.get('overlapping_processes', 0) + 1
 
     def state_digest(self):
         st = sorted((k[0], k[1][:12], l.state, l.stage) for k, l in self.store.items() if l.state != 'absent')
